@@ -28,7 +28,7 @@ from . import gen
 from .pyfun_tr import Unsupported, find_function
 
 OUT = os.path.join(gen.GEN_DIR, 'Gen_C13.v')
-HEAD = (gen.HEADER % 'src/nunavut/_utilities.py, lang/properties.yaml, lang/_language.py, lang/cpp/__init__.py, cli/runners.py, docs/languages.rst'
+HEAD = (gen.HEADER % 'src/nunavut/_utilities.py, lang/properties.yaml, lang/_language.py, lang/cpp/__init__.py, lang/__init__.py, cli/runners.py, docs/languages.rst'
         + 'From Verif Require Import ConfigBase.\nOpen Scope N_scope.\n\n')
 
 PRELUDE = '''(* KeyError monad used inside `try: ... except KeyError: pass` *)
@@ -588,6 +588,66 @@ def translate_cpp_validate() -> str:
             % (coq_str(k_std), coq_str(k_cc), coq_str(k_alloc), '; '.join(coq_str(v) for v in values), coq_str(default)))
 
 
+
+# ---------------------------------------------------------------------------------------------
+# T2 (shape-pinned): LanguageContextBuilder.create -- does a new context share the builder's LanguageConfig?
+# ---------------------------------------------------------------------------------------------
+
+CREATE_SHARED = [
+    'target_language_name = self._resolve_target_language(self._target_language_name)',
+    'self.config.update_section(LanguageClassLoader.to_language_module_name(target_language_name), self._target_language_config)',
+    'target_language = self._new_language_w_experimental_handling(target_language_name)',
+    'return LanguageContext(self._ln_loader.config, target_language, functools.partial(self._new_language_map, target_language))',
+]
+CREATE_DETACHED = [
+    'target_language_name = self._resolve_target_language(self._target_language_name)',
+    'self.config.update_section(LanguageClassLoader.to_language_module_name(target_language_name), self._target_language_config)',
+    'detached = _detached_builder(self)',
+    'target_language = detached._new_language_w_experimental_handling(target_language_name)',
+    'return LanguageContext(detached.config, target_language, functools.partial(detached._new_language_map, target_language))',
+]
+DETACHED_BUILDER = [
+    'import copy',
+    'detached = LanguageContextBuilder(builder._include_experimental_languages)',
+    'detached._target_language_name = builder._target_language_name',
+    'detached._target_language_config = copy.deepcopy(builder._target_language_config)',
+    'detached._ln_loader._config = copy.deepcopy(builder.config)',
+    'return detached',
+]
+BUILDER_SETTERS = {
+    'set_target_language_configuration_override': ['if value is not None:\n    self._target_language_config[key] = value', 'return self'],
+    'add_config_files': ["for additional_path in additional_config_files:\n    with open(str(additional_path), 'r', encoding='utf-8') as additional_file:\n"
+                         "        self.config.update_from_yaml_file(additional_file)", 'return self'],
+}
+
+
+def _stmts(fn: ast.FunctionDef) -> typing.List[str]:
+    return [ast.unparse(st) for st in fn.body if not (isinstance(st, ast.Expr) and isinstance(st.value, ast.Constant))]
+
+
+def translate_create() -> str:
+    """create() is matched against the two shapes it is known in: the context shares the builder's LanguageConfig (pinned tree,
+    F-CFG-REUSE) or gets deep copies of configuration and overrides (`_detached_builder`).  The two state-changing builder calls the
+    hand model relies on are pinned as well.  Anything else fails closed."""
+    tree = gen.parse_repo('src/nunavut/lang/__init__.py')
+    for name, want in BUILDER_SETTERS.items():
+        if _stmts(find_function(tree, 'LanguageContextBuilder', name)) != want:
+            raise Unsupported('LanguageContextBuilder.%s has an unknown shape' % name)
+    got = _stmts(find_function(tree, 'LanguageContextBuilder', 'create'))
+    if got == CREATE_SHARED:
+        detaches = False
+    elif got == CREATE_DETACHED:
+        helper = [n for n in tree.body if isinstance(n, ast.FunctionDef) and n.name == '_detached_builder']
+        if len(helper) != 1 or _stmts(helper[0]) != DETACHED_BUILDER or _params(helper[0], False) != ['builder']:
+            raise Unsupported('_detached_builder has an unknown shape')
+        detaches = True
+    else:
+        raise Unsupported('LanguageContextBuilder.create has an unknown shape: %s' % ' | '.join(x.splitlines()[0] for x in got))
+    return ('(* LanguageContextBuilder.create: true = the new context gets deep copies of the configuration and the overrides\n'
+            '   (create leaves the builder unchanged); false = the context shares the builder\'s LanguageConfig, which create updates in place *)\n'
+            'Definition create_detaches_config : bool := %s.' % ('true' if detaches else 'false'))
+
+
 def gen_c13() -> typing.Tuple[bool, str]:
     try:
         ut = gen.parse_repo('src/nunavut/_utilities.py')
@@ -610,6 +670,7 @@ def gen_c13() -> typing.Tuple[bool, str]:
                      'Definition cpp_documented_group_keys : list (list N * list (list N)) :=\n  [%s].'
                      % ';\n   '.join('(%s, [%s])' % (coq_str(k), '; '.join(coq_str(x) for x in v)) for k, v in docs.items()))
         parts.append(translate_cpp_validate())
+        parts.append(translate_create())
         parts.append(translate_cli(wk))
     except (Unsupported, SyntaxError, OSError, KeyError, TypeError) as ex:
         gen.write_if_changed(OUT, HEAD + '(* translator failed closed: %s *)\n' % str(ex).replace('*)', '* )'))
